@@ -208,6 +208,12 @@ func c13tile(c *h.Ctx, t maptile.Tile, strictCorners bool, r *h.Rand) {
 	if t.Z <= 27 {
 		z1 := t.Z + maptile.Zoom(r.Intn(2))
 		z2 := z1 + maptile.Zoom(r.Intn(2))
+		if t.Z <= 22 && r.P(1, 64) {
+			// levels of thousands of tiles
+			z1 = t.Z + maptile.Zoom(r.Range(4, 6))
+			z2 = z1 + maptile.Zoom(r.Intn(2))
+			c.Count("deep_descendant_ranges", 1)
+		}
 		got := maptile.ChildrenInZoomRange(t, z1, z2)
 		c.Eval()
 		want := 0
@@ -402,6 +408,16 @@ func init() {
 						p = []orb.Point{b.Min, b.Max, b.LeftTop(), b.RightBottom()}[r.Intn(4)]
 					case 4:
 						p = orb.Point{float64(r.Range(-180, 180)), float64(r.Range(-90, 90))}
+					case 5:
+						// "any latitude": far beyond the poles, the largest finite values, infinities
+						p = orb.Point{r.Uniform(-180, 180), []float64{90.5, 94, 95, 100, 135, 180, 200, 270, 360, 1e6, 1e300, math.MaxFloat64, math.Inf(1)}[r.Intn(13)]}
+						if r.Bool() {
+							p[1] = -p[1]
+						}
+						if r.P(1, 4) {
+							p[0] = []float64{-180, 180, 0}[r.Intn(3)]
+						}
+						c.Count("latitudes_far_beyond_the_poles", 1)
 					default:
 						p = orb.Point{r.Uniform(-180, 180), r.Uniform(-89.9, 89.9)}
 					}
